@@ -88,7 +88,71 @@ def _classes():
     return _CLASSES
 
 
+def _re_items(regex):
+    """_frame_re & co. as a list of Spec.C16_Re items (fails closed on anything outside the fragment)."""
+    try:
+        import re._parser as sre_parse
+        import re._constants as sre_c
+    except ImportError:       # Python < 3.11
+        import sre_parse
+        import sre_constants as sre_c
+    if regex.flags & ~re.UNICODE:
+        raise RuntimeError("unsupported regex flags %r on %r" % (regex.flags, regex.pattern))
+
+    def cls(node):
+        op, arg = node
+        if op is sre_c.ANY:
+            return "CDot"
+        if op is sre_c.IN:
+            if arg == [(sre_c.CATEGORY, sre_c.CATEGORY_DIGIT)]:
+                return "CDigit"
+            if arg and all(o is sre_c.LITERAL for o, _ in arg):
+                return "(CSet %s)" % clist(cN(c) for _, c in arg)
+        if op is sre_c.LITERAL:
+            return "(CSet [%s])" % cN(arg)
+        raise RuntimeError("unsupported character class %r in %r" % (node, regex.pattern))
+    items = []
+    for op, arg in sre_parse.parse(regex.pattern, regex.flags):
+        if op is sre_c.LITERAL:
+            items.append("ILit %s" % cN(arg))
+        elif op is sre_c.AT and arg is sre_c.AT_BEGINNING:
+            items.append("IBol")
+        elif op is sre_c.AT and arg is sre_c.AT_END:
+            items.append("IEol")
+        elif op is sre_c.SUBPATTERN:
+            group, add, dele, sub = arg
+            sub = list(sub)
+            if add or dele or group is None or len(sub) != 1 or sub[0][0] is not sre_c.MAX_REPEAT:
+                raise RuntimeError("unsupported group %r in %r" % (arg, regex.pattern))
+            lo, hi, body = sub[0][1]
+            body = list(body)
+            if lo != 1 or hi is not sre_c.MAXREPEAT or len(body) != 1:
+                raise RuntimeError("unsupported repetition %r in %r" % (sub[0], regex.pattern))
+            items.append("IPlusGroup %s %s" % (cN(group), cls(body[0])))
+        elif op is sre_c.MAX_REPEAT:
+            lo, hi, body = arg
+            body = list(body)
+            if lo != 0 or hi is not sre_c.MAXREPEAT or len(body) != 1:
+                raise RuntimeError("unsupported repetition %r in %r" % (arg, regex.pattern))
+            items.append("IStar %s" % cls(body[0]))
+        else:
+            raise RuntimeError("unsupported regex construct %r in %r" % ((op, arg), regex.pattern))
+    return clist(items), clist(cN(i + 1) for i in range(regex.groups))
+
+
 def translators(repo):
+    if repo not in sys.path:
+        sys.path.insert(0, repo)
+    import importlib
+    tb = importlib.import_module("boltons.tbutils")
+    if not os.path.abspath(tb.__file__).startswith(os.path.abspath(repo)):
+        raise RuntimeError("boltons imported from %s, not from %s" % (tb.__file__, repo))
+    regexes = []
+    for coq_name, attr in (("gen_frame", "_frame_re"), ("gen_se", "_se_frame_re"), ("gen_underline", "_underline_re")):
+        items, groups = _re_items(getattr(tb, attr))
+        regexes.append("(* boltons.tbutils.%s = %s *)\nDefinition %s_items : list item := %s.\nDefinition %s_groups : list N := %s.\n"
+                       % (attr, getattr(tb, attr).pattern.replace("(*", "( *").replace("*)", "* )").replace('"', "DQ"),
+                          coq_name, items, coq_name, groups))
     sp, br, dg = _classes()
     if not sp or not br or not dg:
         raise RuntimeError("empty character class")
@@ -97,13 +161,14 @@ def translators(repo):
         return clist("(%s, %s)" % (cN(a), cN(b)) for a, b in rs)
     text = ("(* generated by harness/c16.py from the running interpreter (%s): what str.strip,\n"
             "   str.splitlines and the regex class \\d consult *)\n"
-            "From Boltons Require Import Lib.Prelude Lib.C16_Text.\nOpen Scope N_scope.\n"
+            "From Boltons Require Import Lib.Prelude Lib.C16_Text Spec.C16_Re.\nOpen Scope N_scope.\n"
             "Definition py_space_ranges : list (N * N) := %s.\n"
             "Definition py_break_ranges : list (N * N) := %s.\n"
             "Definition py_digit_ranges : list (N * N) := %s.\n"
             "Definition py_cc : cc := mkCC (in_ranges py_space_ranges) (in_ranges py_break_ranges) "
             "(in_ranges py_digit_ranges).\n"
             % (sys.version.split()[0], rl(sp), rl(br), rl(dg)))
+    text += "(* the three patterns, parsed by re._parser from the module as it is now *)\n" + "".join(regexes)
     return {"C16_Gen": text}
 
 
@@ -478,13 +543,51 @@ def gen_ei(rng, tier):
             "entry": [where[0], "c0"], "expect": expect, "full": rng.random() < 0.3}
 
 
+RE_SEEDS = ['File "a.py", line 1, in f', 'File "a", line 5, in b.py", line 12, in <module>', 'File "a", line 1, in f\n',
+            'File "a", line 1, in f\n\n', 'File "a", line 1, in f\ng', 'File "a\nb", line 1, in f', 'File "", line 1, in f',
+            'File "a", line , in f', 'File "a", line 12', 'File "a", line 12, in ', ' File "a", line 1, in f', 'file "a", line 1, in f',
+            'File "a", line \u0663\u0664, in f', 'File "a", line 1,, in f', 'File "a"", line 1, in f', 'File "a", line 1, in f, in g',
+            'File "x", line 3", line 4, in z', '', ' ', '~^ ~', '~^x', '^\n', '^\n\n', '\n', '~\n^', '  ^^^  ', 'File "a", line 12x',
+            'File "\x0c", line 1, in \x0c', 'File "a", line 1, in \u2028', 'File "a", line 19, line 20, in g']
+
+
+def gen_re(rng, tier):
+    which = rng.choice([0, 0, 0, 1, 1, 2])
+    r = rng.random()
+    if r < 0.4:
+        s = rng.choice(RE_SEEDS)
+    else:
+        base = gen_rt(rng, tier)
+        base["renderer"] = "plain"
+        lines = plain_render(base).split("\n")
+        s = rng.choice(lines)
+        if rng.random() < 0.7:
+            s = s.strip()
+    for _ in range(rng.choice([0, 0, 1, 2])):
+        op = rng.choice(["chop", "ins", "nl", "dup"])
+        if op == "chop" and s:
+            i = rng.randrange(len(s))
+            s = s[:i] + s[i + 1:]
+        elif op == "ins":
+            i = rng.randrange(len(s) + 1)
+            s = s[:i] + rng.choice(['"', ", line ", "7", ", in ", "\n", " ", "~", "^", "\u0665", 'File "']) + s[i:]
+        elif op == "nl":
+            s = s + "\n"
+        elif op == "dup" and s:
+            i = rng.randrange(len(s))
+            s = s[:i] + s[i:] [:8] + s[i:]
+    return {"kind": "re", "which": which, "s": s}
+
+
 def generate(rng, tier, n):
     for i in range(n):
         r = rng.random()
-        if r < 0.58:
+        if r < 0.50:
             yield gen_rt(rng, tier)
-        elif r < 0.78:
+        elif r < 0.67:
             yield gen_raw(rng, tier)
+        elif r < 0.80:
+            yield gen_re(rng, tier)
         else:
             yield gen_ei(rng, tier)
 
@@ -538,6 +641,11 @@ def run_impl(case):
     if kind == "raw":
         parsed, printed = _parse_obs(case["text"])
         return {"parsed": parsed, "printed": printed}
+    if kind == "re":
+        from boltons import tbutils
+        regex = (tbutils._frame_re, tbutils._se_frame_re, tbutils._underline_re)[case["which"]]
+        m = regex.match(case["s"])
+        return {"groups": None if m is None else list(m.groups())}
     return _run_program(case)
 
 
@@ -686,6 +794,10 @@ def to_coq(case, obs):
                                            _res_str(I, obs["printed"]))
     elif kind == "raw":
         term = "CaseRaw %s %s %s" % (I.t(case["text"]), _res_tb(I, obs["parsed"]), _res_str(I, obs["printed"]))
+    elif kind == "re":
+        g = obs["groups"]
+        term = "CaseRe %s %s %s" % (cN(case["which"]), I.t(case["s"]),
+                                    "None" if g is None else "(Some %s)" % clist(I.t(x) for x in g))
     else:
         live = clist("mkLive %s %s %s %s" % (I.s(l["file"]), cN(l["lineno"]), I.s(l["name"]), I.s(l["raw"])) for l in obs["live"])
         e = obs["exc"]
@@ -707,6 +819,9 @@ def corrupt(case, obs):
     import copy
     bad = copy.deepcopy(obs)
     kind = case["kind"]
+    if kind == "re":
+        bad["groups"] = [] if obs["groups"] is None else None
+        return bad
     if kind in ("rt", "raw"):
         if isinstance(bad["parsed"], dict) and "err" not in bad["parsed"]:
             bad["parsed"]["type"] = bad["parsed"]["type"] + "x"
@@ -743,6 +858,8 @@ def distribution(d, case, obs):
         if any(not f["src"] for f in case["frames"][-1:]):
             inc("rt_last_frame_without_source", "yes")
         inc("rt_outcome", "parsed" if "err" not in obs["parsed"] else obs["parsed"]["err"])
+    elif kind == "re":
+        inc("re_outcome", "%s:%s" % (("frame", "se_frame", "underline")[case["which"]], "match" if obs["groups"] is not None else "no"))
     elif kind == "raw":
         inc("raw_outcome", "parsed" if "err" not in obs["parsed"] else obs["parsed"]["err"])
         if isinstance(obs["printed"], dict):
@@ -759,6 +876,8 @@ def distribution(d, case, obs):
 
 
 def sample(case, obs):
+    if case["kind"] == "re":
+        return {"case": case, "groups": obs["groups"]}
     if case["kind"] == "ei":
         return {"kind": "ei", "fmt": obs["fmt"].replace(obs["root"], "<tmp>"), "interp": obs["interp"].replace(obs["root"], "<tmp>")}
     return {"case": case, "obs": obs}
@@ -787,6 +906,10 @@ def shrink(case):
                 c = dict(case)
                 c[key] = val
                 yield c
+    elif kind == "re":
+        t = case["s"]
+        for i in range(len(t)):
+            yield {"kind": "re", "which": case["which"], "s": t[:i] + t[i + 1:]}
     elif kind == "raw":
         lines = case["text"].split("\n")
         for i in range(len(lines)):
